@@ -244,9 +244,48 @@ func c12(x *mon.Ctx) {
 		n := 2 + r.Intn(5)
 		shared := &verify.Options{}
 		var hist []map[string]any
+		var prev *world.World
 		for s := 0; s < n; s++ {
 			w, label := anyWorld(r)
 			o := combos[r.Intn(4)]
+			if prev != nil && r.Intn(3) == 0 {
+				// the PREVIOUS step's world again (same quote, same chains, same documents), with one thing changed since:
+				// whatever the options value remembers about "these bytes" must not outlive the change
+				w = prev.Clone()
+				o = combos[r.Intn(2)] // collateral on: the change is in what is fetched or in how it is judged
+				switch r.Intn(7) {
+				case 0:
+					w.MakeCRLs([]*big.Int{w.PKI.TcbSign.Cert.SerialNumber}, nil)
+					label = "again/root-crl-now-revokes-signer"
+					o = combos[0]
+				case 1:
+					w.MakeCRLs(nil, []*big.Int{w.PKI.Leaf.Cert.SerialNumber})
+					label = "again/pck-crl-now-revokes-leaf"
+					o = combos[0]
+				case 2:
+					w.MakeCRLs([]*big.Int{w.PKI.Inter.Cert.SerialNumber}, nil)
+					label = "again/root-crl-now-revokes-intermediate"
+					o = combos[0]
+				case 3:
+					w.Roots = certs(world.Issue(world.RootTemplate(world.Far), nil, world.NewKey()))
+					label = "again/pool-now-lists-another-root"
+				case 4:
+					for i := range w.Times {
+						w.Times[i] = world.Far.NotAfter.Add(world.Day)
+					}
+					label = "again/times-now-past-every-expiry"
+				case 5:
+					for i := range w.Tcb.Levels {
+						w.Tcb.Levels[i].Status = "OutOfDate"
+					}
+					w.Resign()
+					label = "again/tcb-info-now-says-out-of-date"
+				case 6:
+					w.Q.Body[200] ^= 1 // body edited, signature not redone
+					label = "again/body-now-edited"
+				}
+			}
+			prev = w
 			c := w.Case(world.LCrl, "history", fmt.Sprintf("h%d/step%d:%s/%s", i, s, label, o.name))
 			c.GetCollateral, c.CheckCRL = o.get, o.crl
 			switch r.Intn(8) {
